@@ -13,9 +13,9 @@ open Rx Py
 namespace Reader
 
 /-- `Reader(text)`: reserved code points become blanks, then the text is split into lines. -/
-def ofText (text : Str) (depth : Nat := 0) : Reader :=
+def ofText (text : Str) (depth : Nat := 0) (level : Nat := 0) : Reader :=
   let t := text.map fun c => if c.toNat ≤ 2 then ' ' else c
-  { rest := Gen.P.io_Reader_init_0.split t, depth := depth }
+  { rest := Gen.P.io_Reader_init_0.split t, depth := depth, level := level }
 
 /-- `reader.nesting()`: the line-macro expansions the cursor is inside, those around an enclosing container included (the
     pruning of the list that the Python does here is repeated by every later use, so it is not recorded) -/
@@ -350,8 +350,8 @@ deriving Repr, DecidableEq, Inhabited
 
 /-- `options.updateFrom(options)` -/
 def updateFrom (o : RenderOptions) : M Unit := do
-  if (← get).callback then
-    modify fun s => { s with callback := o.callback }
+  if o.callback then
+    modify fun s => { s with callback := true }
   setOption "reset".toList o.reset
   if o.callback then
     modify fun s => { s with callback := true }
@@ -359,6 +359,13 @@ def updateFrom (o : RenderOptions) : M Unit := do
     setOption "safeMode".toList (.str o.safeMode.toStr)
   if o.htmlReplacement != .none then
     setOption "htmlReplacement".toList o.htmlReplacement
+
+/-- `options.setOption` as the API Option element calls it: a reset element restores the option defaults, it does not
+    take away the callback of the render call in progress -/
+def setOptionInDocument (name : Str) (value : PyVal) : M Unit := do
+  let cb := (← get).callback
+  setOption name value
+  modify fun s => { s with callback := cb }
 
 /-! ## lineblocks -/
 
@@ -421,7 +428,7 @@ def lineFilter (rec : Rec) (env : Env) (d : LineDef) (mt : Match) : M Str := do
   | .apiOption =>
     if !(← isSafeModeNz) then
       let value ← replaceInline rec env (← mt.str 2) { macros := some true }
-      setOption (← mt.str 1) (.str value)
+      setOptionInDocument (← mt.str 1) (.str value)
     return []
 
 /-- The `for d in defs` loop of `lineblocks.render`. -/
@@ -452,6 +459,7 @@ def lineblocksGo (rec : Rec) (env : Env) (allowed : List Str) :
         let text ← lineFilter rec env d mt
         if text != [] then
           let text ← injectHtmlAttributes text
+          modify fun s => { s with opts := {} }
           let writer := writer.write text
           let reader := reader.next
           let writer := if !reader.eof then writer.write "\n".toList else writer
@@ -559,9 +567,12 @@ def renderBlockBody (rec : Rec) (env : Env) (d : BlockDef) (mt : Match) (reader 
       let isHtml := d.name == "html".toList
       let text2 ← if isHtml then injectHtmlAttributes text1 else pure text1
       let opentag0 ← if isHtml then pure d.openTag else injectHtmlAttributes d.openTag
-      let text3 ← if expand.container == some true then do
+      -- too deeply nested to be rendered as a document of its own
+      let tooDeep := expand.container == some true && reader.level ≥ Gen.maxContainerDepth
+      if tooDeep then errorCallback ("block nesting limit exceeded: ".toList ++ mt.whole)
+      let text3 ← if expand.container == some true && !tooDeep then do
           modify fun s => { s with opts := { s.opts with container := none } }
-          rec.document nesting text2
+          rec.document { nesting := nesting, level := reader.level + 1 } text2
         else do
           let t ← replaceInline rec env text2 expand
           if isHtml then htmlSafeModeFilter t else pure t
@@ -680,6 +691,7 @@ def renderList (rec : Rec) (env : Env) : Nat → ItemInfo → Reader → Writer 
   | fuel+1, item, reader, writer => do
     modify fun s => { s with listIds := s.listIds ++ [item.id] }
     let tag ← injectHtmlAttributes item.listdef.listOpenTag
+    modify fun s => { s with opts := {} }
     renderListLoop rec env fuel item reader (writer.write tag)
 
 /-- the `while True` of `renderList` -/
@@ -797,8 +809,8 @@ def documentLoop (rec : Rec) (env : Env) : Nat → Reader → Writer → M Write
     documentLoop rec env fuel reader writer
 
 /-- `document.render(source)` with the loop fuel given. -/
-def documentRender (rec : Rec) (env : Env) (fuel : Nat) (source : Str) (nesting : Nat := 0) : M Str := do
-  let w ← documentLoop rec env fuel (Reader.ofText source nesting) {}
+def documentRender (rec : Rec) (env : Env) (fuel : Nat) (source : Str) (d : Depth := {}) : M Str := do
+  let w ← documentLoop rec env fuel (Reader.ofText source d.nesting d.level) {}
   return w.toStr
 
 /-- Ties the recursion: level `n+1` may nest `n` further span / document renders. -/
